@@ -79,4 +79,13 @@ def main(argv=None):
 
 
 if __name__ == '__main__':
-    sys.exit(main())
+    try:
+        rc = main()
+        sys.stdout.flush()
+    except BrokenPipeError:
+        rc = 0
+        try:
+            sys.stdout.close()
+        except Exception:
+            pass
+    sys.exit(rc)
